@@ -105,10 +105,15 @@ def gen_case(rng, main):
         opts.append('--medium=%s,%s,0,%s' % (_fmt(_d(rng, 3, 20, 3)), _fmt(_d(rng, 0.001, 0.03, 2)), _fmt(c1)))
         opts.append('--medium=%s,%s,%s,%s' % (_fmt(_d(rng, 3, 20, 3)), _fmt(_d(rng, 0.001, 0.03, 2)), _fmt(-_d(rng, 0, 2, 2)), _fmt(float('%.3g' % (c1 + _d(rng, 5, 30, 3))))))
         opts.append('--medium=%s,%s,%s' % (_fmt(_d(rng, 3, 20, 3)), _fmt(_d(rng, 0.001, 0.03, 2)), _fmt(-_d(rng, 0, 3, 2))))
+        if rng.random() < 0.3:
+            # the outermost medium given an interface coordinate of its own (3-4 values are accepted for every medium)
+            opts[-1] += ',' + _fmt(float('%.3g' % (c1 + _d(rng, 40, 90, 3))))
         opts.append('--boundary=' + rng.choice(['linear', 'circular']))
     elif ground == 'two':
         opts.append('--medium=%s,%s,0,%s' % (_fmt(_d(rng, 3, 20, 3)), _fmt(_d(rng, 0.001, 0.03, 2)), _fmt(_d(rng, 5, 20, 3))))
         opts.append('--medium=%s,%s,%s' % (_fmt(_d(rng, 3, 20, 3)), _fmt(_d(rng, 0.001, 0.03, 2)), _fmt(-_d(rng, 0, 3, 2))))
+        if rng.random() < 0.3:
+            opts[-1] += ',' + _fmt(_d(rng, 25, 90, 3))
         opts.append('--boundary=' + rng.choice(['linear', 'circular']))
         if rng.random() < 0.5:
             opts += ['--radial-count=%d' % rng.choice([8, 16, 32]), '--radial-radius=' + _fmt(_d(rng, 0.001, 0.003, 2))]
@@ -427,6 +432,61 @@ def c15(payload):
             r['lds'] = _observe_loads(m1, t1, m2x, by_geo)
             r['srcs'] = _observe_sources(m1, t1, m2x)
             r['features'] = dict(nobj=len(m1.geo), nloads=len(m1.loads), media=len(m1.media or []), by_geo=by_geo)
+        except Exception as e:
+            r['error'] = exc_info(e)
+        out.append(r)
+    return dict(results=out)
+
+
+# ------------------------------------------------------------------ stage media
+def media(payload):
+    """the media options through the real main: rejected, or the media of the model it builds (numbers as integers, radial
+    wire radius in mm) and the media options of the list the model writes"""
+    import io
+    from mininec.mininec import main
+    out = []
+    for c in payload['cases']:
+        r = dict(id=c['id'])
+        try:
+            err = io.StringIO(); so = io.StringIO()
+            import contextlib
+            with contextlib.redirect_stdout(so):
+                try:
+                    m = main(['-w', '4,0,0,1,0,0,3,0.001', '--excitation-pulse=2'] + c['opts'], f_err=err, return_mininec=True)
+                except SystemExit as e_:
+                    m = 2
+            if isinstance(m, int):
+                r['rejected'] = (err.getvalue() + so.getvalue()).strip()[:200]
+            else:
+                md = m.media or []
+                f0 = md[0] if md else None
+                r['env'] = [len(md), int(len(md) >= 2 and m.boundary == 'circular')] \
+                    + ([int(f0.nradials), int(round(f0.radius * 1000))] if (f0 is not None and f0.nradials) else [0, 0]) \
+                    + [int(round(v)) for g in md for v in (g.permittivity, g.conductivity, g.height, g.coord)]
+                toks = []
+                for ln in m.as_cmdline().split('\n'):
+                    for w in ln.split():
+                        if w.startswith('--medium='): toks.append([0] + [int(round(float(x))) for x in w.split('=')[1].split(',')])
+                        elif w.startswith('--boundary='): toks.append([1, int(w.split('=')[1] == 'circular')])
+                        elif w.startswith('--radial-count='): toks.append([2, int(w.split('=')[1])])
+                        elif w.startswith('--radial-radius='): toks.append([3, int(round(float(w.split('=')[1]) * 1000))])
+                r['written'] = toks
+                # the property itself on this command line: the written list is accepted and gives the same media
+                def _envof(mm):
+                    return [[float(g.permittivity), float(g.conductivity), float(g.height), float(g.coord), int(g.nradials), float(g.radius),
+                             g.boundary if len(mm.media) > 1 else None] for g in (mm.media or [])]
+                e2 = io.StringIO()
+                with contextlib.redirect_stdout(so):
+                    try:
+                        m2 = main(m.as_cmdline().split(), f_err=e2, return_mininec=True)
+                    except SystemExit:
+                        m2 = 2
+                if isinstance(m2, int):
+                    r['rt'] = 'the written list is rejected: ' + e2.getvalue().strip()[:200]
+                elif _envof(m2) != _envof(m):
+                    r['rt'] = 're-read media %r, written from %r' % (_envof(m2), _envof(m))
+                elif m2.as_cmdline() != m.as_cmdline():
+                    r['rt'] = 'the option list differs after re-reading'
         except Exception as e:
             r['error'] = exc_info(e)
         out.append(r)
